@@ -709,3 +709,46 @@ def pp(v):
         s = ", ".join(pp(x) for x in v)
         return ("[%s]" if isinstance(v, list) else "(%s)") % s
     return show(v)
+
+
+def lookup_problems(repo, folder, bbs_cls, bb_cls):
+    """BasicBlocks.get_basic_block(addr) over two contiguous blocks [S, S+a) [S+a, S+a+b): the block whose
+    half-open range contains addr, None outside."""
+    gbb = bbs_cls.lookup("get_basic_block")
+    cpush = bbs_cls.lookup("push")
+    push = bb_cls.lookup("push")
+    if gbb is None or cpush is None or push is None or len(gbb.params()) != 2:
+        raise AnalysisError("anchor vanished: BasicBlocks.get_basic_block(addr)/push")
+    out = []
+
+    def run(asg):
+        res = []
+        it = SymInterp(repo, folder, asg=asg, hooks={"method": _ins_hook((0, 0, 0)), "positive": _positive, "call": isa_hook},
+                       instantiate=("DEXBasicBlock", "BasicBlocks"))
+        cont = it.construct(bbs_cls, [])
+        b0 = _new_block(it, bb_cls, BSTART)
+        it.call_function(push, [INSK(0)], recv=b0)
+        b1 = _new_block(it, bb_cls, _getter(it, b0, "get_end"))
+        it.call_function(push, [INSK(1)], recv=b1)
+        it.call_function(push, [INSK(2)], recv=b1)
+        it.call_function(cpush, [b0], recv=cont)
+        it.call_function(cpush, [b1], recv=cont)
+        a, b, c = LENK(0), LENK(1), LENK(2)
+        queries = [("the start of the first block", lin({BSTART: 1}), b0),
+                   ("the last byte of the first block", lin({BSTART: 1, a: 1}, -1), b0),
+                   ("the start of the second block (= end of the first)", lin({BSTART: 1, a: 1}), b1),
+                   ("the second instruction of the second block", lin({BSTART: 1, a: 1, b: 1}), b1),
+                   ("the end of the last block", lin({BSTART: 1, a: 1, b: 1, c: 1}), None),
+                   ("the byte before the first block", lin({BSTART: 1}, -1), None)]
+        for what, q, want in queries:
+            got = it.call_function(gbb, [q], recv=cont)
+            if got is not want:
+                res.append(("lookup", "get_basic_block(%s) returns %s, expected %s" % (what, pp(got), pp(want) if want is not None else None)))
+        return res
+
+    for _, r in explore(run, max_paths=64):
+        if isinstance(r, Raised):
+            out.append(("lookup", "get_basic_block raises %s" % r))
+        else:
+            out.extend(r)
+    return out
